@@ -426,8 +426,26 @@ DIRECTED_META = {'inputs': ['Sheet1!A1', 'Sheet1!A2'],
                  'order': ['Sheet1!A1', 'Sheet1!A2', 'Sheet1!B1', 'Sheet1!B2']}
 
 
+# a whole-column reference whose used part is the target of an array formula (both nodes carry a formula)
+COLUMN_OVER_ARRAY_SPEC = {'sheets': [['Sheet1', {'A1': 1, 'A2': 2, 'A3': 3, 'E1': '=SUM(C:C)', 'E2': '=E1+A1'}]],
+                          'names': {}, 'arrays': [['Sheet1', 'C1:C3', '=A1:A3*2']], 'calc': None}
+COLUMN_OVER_ARRAY_META = {'inputs': ['Sheet1!A1', 'Sheet1!A2', 'Sheet1!A3'],
+                          'formulas': {'Sheet1!E1': {'form': 'unbounded', 'deps': ['Sheet1!A1', 'Sheet1!A2', 'Sheet1!A3']},
+                                       'Sheet1!E2': {'form': 'arith', 'deps': ['Sheet1!E1', 'Sheet1!A1']},
+                                       'Sheet1!C1': {'form': 'cse', 'deps': ['Sheet1!A1']},
+                                       'Sheet1!C2': {'form': 'cse', 'deps': ['Sheet1!A2']},
+                                       'Sheet1!C3': {'form': 'cse', 'deps': ['Sheet1!A3']}},
+                          'order': ['Sheet1!A1', 'Sheet1!A2', 'Sheet1!A3', 'Sheet1!C1', 'Sheet1!C2', 'Sheet1!C3',
+                                    'Sheet1!E1', 'Sheet1!E2']}
+
+
 def directed(ctx):
     """the two text classes recorded as known findings, reproduced on every run"""
+    for fmt in ('yml', 'json', 'pkl'):
+        one_round_trip(ctx, COLUMN_OVER_ARRAY_SPEC, COLUMN_OVER_ARRAY_META, fmt, 'same', None,
+                       [['eval', 'Sheet1!E2'], ['set', 'Sheet1!A2', 20], ['eval', 'Sheet1!E2'], ['eval', 'Sheet1!C2']],
+                       [], 1)
+        ctx.count('directed:column-over-array')
     ops = [['eval', a] for a in DIRECTED_META['order']]
     for fmt in ('yml', 'json', 'pkl'):
         one_round_trip(ctx, DIRECTED_SPEC, DIRECTED_META, fmt, 'same', None, ops, [], 1)
